@@ -97,7 +97,7 @@ def first_doc_difference(a, b, path=()):
             if d:
                 return d
         return None
-    if srcgen.json_same(a, b):
+    if srcgen.json_same(a, b) and srcgen.dumps(a) == srcgen.dumps(b):
         return None
     return path, a, b
 
@@ -129,25 +129,37 @@ def map_keys_heuristic(result):
     return True
 
 
-def classify_enc_eq(job):
-    """why do two documents with equal encodings compare unequal?  look at how the inputs differ"""
+def classify_enc_eq(job, result):
+    """why do two values with equal encodings compare unequal?  look at how the INPUT documents of the
+    failing pairs differ"""
     docs = job["pydocs"]
+    n = len(docs)
+    encs = [x["enc"] if x["std"] == "ok" else None for x in result["res"]] + \
+           [x["senc"] if x["strict"] == "ok" else None for x in result["res"]]
     causes = set()
-    for i in range(len(docs)):
-        for j in range(len(docs)):
-            if i >= j:
+    for i in range(len(encs)):
+        for j in range(len(encs)):
+            if encs[i] is None or encs[j] is None or result["eq"][i][j] != "f" or not srcgen.json_same(encs[i], encs[j]):
                 continue
+            a, b = docs[i % n], docs[j % n]
             try:
-                d = first_doc_difference(docs[i], docs[j])
+                d = first_doc_difference(a, b)
             except Exception:
                 d = None
-            if d and isinstance(d[1], str) and isinstance(d[2], str) and TS.match(d[1]) and TS.match(d[2]):
+            if d is None:
+                # the same document decoded twice
+                if re.search(r"[+-]\d\d:(?!00)\d\d\"", srcgen.dumps(a)):
+                    causes.add("datetime-offset-not-whole-hour")
+                elif re.search(r"\d{4}-\d\d-\d\dT", srcgen.dumps(a)):
+                    causes.add("datetime")
+                else:
+                    causes.add("same-document")
+            elif isinstance(d[1], str) and isinstance(d[2], str) and TS.match(d[1]) and TS.match(d[2]):
                 causes.add("datetime-zone-notation")
-    text = " ".join(job["docs"])
-    if not causes and re.search(r"[+-]\d\d:(?!00)\d\d\"", text):
-        causes.add("datetime-offset-not-whole-hour")
-    if not causes and re.search(r"\d{4}-\d\d-\d\dT", text):
-        causes.add("datetime")
+            elif isinstance(d[1], (int, srcgen.Decimal)) and isinstance(d[2], (int, srcgen.Decimal)):
+                causes.add("number-literal-selects-other-union-branch")
+            else:
+                causes.add("other")
     return "+".join(sorted(causes)) or "other"
 
 
@@ -170,7 +182,7 @@ def run(ctx, verdict, replay=None, model_ok=True):
                 job["schema_text"] = re.sub(r"(?m)^package \w+", "package " + job["pkg"], job["schema_text"])
                 sid = camp.add_schema_text(job["pkg"], job["fmt"], job["schema_text"])
                 replay_jobs.append((sid, job))
-        per_fmt = 120 if thorough else 12
+        per_fmt = 220 if thorough else 22
         k = 0
         for fmt in srcgen.FORMATS:
             for _ in range(per_fmt):
@@ -187,7 +199,7 @@ def run(ctx, verdict, replay=None, model_ok=True):
     for sid, job in replay_jobs:
         if sid in ok:
             camp.add_job(sid, job["type"], [srcgen.loads(d) for d in job["docs"]], meta=job.get("meta"))
-    ntr = 45 if thorough else 20
+    ntr = 45 if thorough else 22
     for sid, s in plan:
         if sid not in ok:
             continue
@@ -211,6 +223,8 @@ def run(ctx, verdict, replay=None, model_ok=True):
             ("PF_PANIC", "no_panic")]
     pf_all = set()
     budget = 40
+    # a panic inside Equals itself (strict-decoder panics belong to C08/C01)
+    ev["PF_PANIC"] = [i for i in live if any(c == "p" for row in camp.results[i]["eq"] for c in row)]
     for key, law in laws:
         for i in sorted(ev[key], key=lambda i: len(json.dumps(camp.jobs[i]["docs"]))):
             pf_all.add(i)
@@ -220,7 +234,7 @@ def run(ctx, verdict, replay=None, model_ok=True):
             if law in ("symmetric", "transitive", "equals_implies_encode_eq_mod_empty"):
                 cause = "map-key-sets-differ" if (i in by_map or (i in unm0 and map_keys_heuristic(camp.results[i]))) else "other"
             elif law == "encode_eq_implies_equals":
-                cause = classify_enc_eq(job)
+                cause = classify_enc_eq(job, camp.results[i])
             else:
                 cause = "other"
             sig = {"law": law, "cause": cause}
